@@ -2,6 +2,7 @@ package sim
 
 import (
 	"fmt"
+	"strings"
 	"math/big"
 	"sort"
 
@@ -39,12 +40,12 @@ func (p *ProdGen) funded() (string, *big.Int) {
 	r := p.E.Rc.Rand
 	for try := 0; try < 10; try++ {
 		i := r.Intn(NAccounts)
-		b := p.E.C.Balance(AcctBytes(i), chain.MintDenom)
+		b := p.E.C.Balance(AcctBytes(i), p.E.MintDenom())
 		if b.Sign() > 0 {
 			return Acct(i), b
 		}
 	}
-	return Acct(RichIx), p.E.C.Balance(AcctBytes(RichIx), chain.MintDenom)
+	return Acct(RichIx), p.E.C.Balance(AcctBytes(RichIx), p.E.MintDenom())
 }
 
 func (p *ProdGen) dstWithMessenger() uint32 {
@@ -75,11 +76,11 @@ func (p *ProdGen) ValidDeposit(withCaller bool, amtMode int) sdk.Msg {
 			amt = new(big.Int).Set(c)
 		}
 	case 3: // exactly the limit
-		if l, ok := p.E.M.Limits["uusdc"]; ok && l.Sign() > 0 && l.Cmp(bal) <= 0 {
+		if l, ok := p.E.M.Limits[strings.ToLower(p.E.MintDenom())]; ok && l.Sign() > 0 && l.Cmp(bal) <= 0 {
 			amt = new(big.Int).Set(l)
 		}
 	}
-	if l, ok := p.E.M.Limits["uusdc"]; ok && amt.Cmp(l) > 0 {
+	if l, ok := p.E.M.Limits[strings.ToLower(p.E.MintDenom())]; ok && amt.Cmp(l) > 0 {
 		amt = new(big.Int).Set(l)
 	}
 	if amt.Cmp(bal) > 0 {
@@ -91,9 +92,19 @@ func (p *ProdGen) ValidDeposit(withCaller bool, amtMode int) sdk.Msg {
 	dst := p.dstWithMessenger()
 	mr := Structured32(byte(r.Intn(250)))
 	if !withCaller {
-		return &ct.MsgDepositForBurn{From: from, Amount: mkInt(amt), DestinationDomain: dst, MintRecipient: mr, BurnToken: "uusdc"}
+		return &ct.MsgDepositForBurn{From: from, Amount: mkInt(amt), DestinationDomain: dst, MintRecipient: mr, BurnToken: p.E.MintDenom()}
 	}
-	return &ct.MsgDepositForBurnWithCaller{From: from, Amount: mkInt(amt), DestinationDomain: dst, MintRecipient: mr, BurnToken: "uusdc", DestinationCaller: Structured32(byte(1 + r.Intn(250)))}
+	return &ct.MsgDepositForBurnWithCaller{From: from, Amount: mkInt(amt), DestinationDomain: dst, MintRecipient: mr, BurnToken: p.E.MintDenom(), DestinationCaller: Structured32(byte(1 + r.Intn(250)))}
+}
+
+// CraftedBurnSend: a user sends, to the destination's token messenger, a body laid out like a burn
+// message naming themselves as depositor (nothing is burnt). Later presented to replace-deposit-for-burn.
+func (p *ProdGen) CraftedBurnSend() sdk.Msg {
+	r := p.E.Rc.Rand
+	from := Acct(r.Intn(NAccounts))
+	dst := p.dstWithMessenger()
+	body := BurnBody(0, ref.Keccak256([]byte(strings.ToLower(p.E.MintDenom()))), Structured32(byte(r.Intn(200))), new(big.Int).Lsh(big.NewInt(1), uint(20+r.Intn(60))), ref.Pad32(addrBytes(from)))
+	return &ct.MsgSendMessage{From: from, DestinationDomain: dst, Recipient: p.E.M.Messengers[dst], MessageBody: body}
 }
 
 func (p *ProdGen) ValidSend(withCaller bool) sdk.Msg {
@@ -173,6 +184,15 @@ func (p *ProdGen) Replacement(cls string) sdk.Msg {
 			}
 			att = ref.HonestAttestation(orig, outs[:e.M.Threshold], 0)
 		case "user-132-as-deposit":
+			// prefer a user-sent message whose body is a well-formed burn message naming the sender as depositor
+			for _, n := range sortedNonces(e.M.Emitted) {
+				c := e.M.Emitted[n]
+				if !c.ByModule && len(c.Original) == 248 && string(c.Original[216:248]) == string(c.Sender) && r.Intn(2) == 0 {
+					orig, from = c.Original, Bech(c.Sender[12:32])
+					att = e.Attest(orig, r.Intn(3))
+					break
+				}
+			}
 			return &ct.MsgReplaceDepositForBurn{From: from, OriginalMessage: orig, OriginalAttestation: att, NewDestinationCaller: newCaller, NewMintRecipient: Structured32(9)}
 		case "new-caller-shapes":
 			newCaller = [][]byte{nil, Structured32(1)[:31], append(Structured32(1), 0)}[r.Intn(3)]
@@ -201,6 +221,14 @@ func (p *ProdGen) Replacement(cls string) sdk.Msg {
 			mr = [][]byte{nil, make([]byte, 32), Structured32(1)[:31], append(Structured32(1), 0)}[r.Intn(4)]
 		}
 		return &ct.MsgReplaceDepositForBurn{From: from, OriginalMessage: orig, OriginalAttestation: att, NewDestinationCaller: newCaller, NewMintRecipient: mr}
+	case "attested-unissued-nonce":
+		// an honestly attested message that this chain never emitted, carrying a nonce at / around the counter
+		from := Acct(r.Intn(NAccounts))
+		n := e.M.NextNonce + uint64(r.Intn(3)) - 1
+		in := &InMsg{Version: 0, Src: 4, Dst: Domains[r.Intn(len(Domains))], Nonce: n, Sender: ref.Pad32(addrBytes(from)),
+			Recipient: Structured32(4), Caller: make([]byte, 32), Body: []byte("unissued")}
+		raw := in.Bytes()
+		return &ct.MsgReplaceMessage{From: from, OriginalMessage: raw, OriginalAttestation: e.Attest(raw, 0), NewMessageBody: newBody, NewDestinationCaller: newCaller}
 	case "foreign-domain":
 		// an honestly attested inbound-style message (source domain != 4) whose sender names the submitter
 		from := Acct(r.Intn(NAccounts))
@@ -223,7 +251,7 @@ func (p *ProdGen) Replacement(cls string) sdk.Msg {
 	return nil
 }
 
-var ReplacementClasses = []string{"own-message", "others-message", "unattested", "rotated-set", "user-132-as-deposit", "new-caller-shapes",
+var ReplacementClasses = []string{"attested-unissued-nonce", "own-message", "others-message", "unattested", "rotated-set", "user-132-as-deposit", "new-caller-shapes",
 	"own-deposit", "others-deposit", "deposit-via-replace-message", "deposit-unattested", "new-recipient-shapes", "foreign-domain", "forged-module-message"}
 
 // FailingProducer returns a producer message that must fail for the named reason.
@@ -250,7 +278,7 @@ func (p *ProdGen) FailingProducer(kind string) []sdk.Msg {
 	case "deposit-over-balance":
 		d := p.ValidDeposit(true, 1).(*ct.MsgDepositForBurnWithCaller)
 		d.Amount = mkInt(new(big.Int).Add(d.Amount.BigInt(), big.NewInt(1)))
-		if l, ok := p.E.M.Limits["uusdc"]; ok && d.Amount.BigInt().Cmp(l) > 0 {
+		if l, ok := p.E.M.Limits[strings.ToLower(p.E.MintDenom())]; ok && d.Amount.BigInt().Cmp(l) > 0 {
 			return nil
 		}
 		return msgs1(d)
@@ -284,8 +312,10 @@ func (p *ProdGen) Run(n int, adminEvery int) {
 		switch k := r.Intn(100); {
 		case k < 22:
 			msgs, label = msgs1(p.ValidDeposit(r.Intn(2) == 0, r.Intn(4))), "deposit"
-		case k < 38:
+		case k < 35:
 			msgs, label = msgs1(p.ValidSend(r.Intn(2) == 0)), "send"
+		case k < 38:
+			msgs, label = msgs1(p.CraftedBurnSend()), "send-crafted-burn-body"
 		case k < 66:
 			cls := ReplacementClasses[r.Intn(len(ReplacementClasses))]
 			if m := p.Replacement(cls); m != nil {
@@ -367,4 +397,13 @@ func NewProdEngine(rc *RunCtx, double bool, start *uint64, mut func(gs *ct.Genes
 			mut(gs, cfg)
 		}
 	})
+}
+
+func sortedNonces(m map[uint64]*Emitted) []uint64 {
+	out := make([]uint64, 0, len(m))
+	for n := range m {
+		out = append(out, n)
+	}
+	sort.Slice(out, func(i, j int) bool { return out[i] < out[j] })
+	return out
 }
